@@ -910,6 +910,57 @@ func srcSwitches(repo string, b *strings.Builder) bool {
 		}
 		transferCopies = callsWithArg(tc, "copy", 1, "conf.MosnConfig.Servers") || callsWithArg(tc, "copy", 1, "wait2dump.Servers")
 	}
+	// SetHosts stores its argument: after taking the lock, the body is `if cluster, ok := conf.Cluster[name]; ok {
+	// cluster.Hosts = <2nd parameter>; conf.Cluster[name] = cluster; tryDump() }` - no other branch, no return
+	setHostsExact := false
+	if _, f3, err := ParseGoFile(repo, "pkg/configmanager/effectiveconfig.go"); err != nil {
+		ok = false
+	} else if sh := FindFunc(f3, "", "SetHosts"); sh == nil || sh.Type.Params == nil || sh.Type.Params.NumFields() != 2 {
+		ok = false
+	} else {
+		var pnames []string
+		for _, fl := range sh.Type.Params.List {
+			for _, n := range fl.Names {
+				pnames = append(pnames, n.Name)
+			}
+		}
+		var rest []ast.Stmt
+		for _, st := range sh.Body.List {
+			switch x := st.(type) {
+			case *ast.ExprStmt:
+				if exprStr(x.X) == "configLock.Lock()" {
+					continue
+				}
+			case *ast.DeferStmt:
+				if exprStr(x.Call) == "configLock.Unlock()" {
+					continue
+				}
+			}
+			rest = append(rest, st)
+		}
+		if len(rest) == 1 && len(pnames) == 2 {
+			if is, isIf := rest[0].(*ast.IfStmt); isIf && is.Else == nil && exprStr(is.Cond) == "ok" && len(is.Body.List) == 3 {
+				var got []string
+				for _, st := range is.Body.List {
+					switch x := st.(type) {
+					case *ast.AssignStmt:
+						if len(x.Lhs) == 1 && len(x.Rhs) == 1 && x.Tok == token.ASSIGN {
+							got = append(got, exprStr(x.Lhs[0])+" = "+exprStr(x.Rhs[0]))
+						}
+					case *ast.ExprStmt:
+						got = append(got, exprStr(x.X))
+					}
+				}
+				init := ""
+				if as, isAs := is.Init.(*ast.AssignStmt); isAs && len(as.Lhs) == 2 && len(as.Rhs) == 1 {
+					init = exprStr(as.Lhs[0]) + ", " + exprStr(as.Lhs[1]) + " := " + exprStr(as.Rhs[0])
+				}
+				want := []string{"cluster.Hosts = " + pnames[1], "conf.Cluster[" + pnames[0] + "] = cluster", "tryDump()"}
+				setHostsExact = init == "cluster, ok := conf.Cluster["+pnames[0]+"]" && strings.Join(got, ";") == strings.Join(want, ";")
+			}
+		}
+	}
+	fmt.Fprintf(b, "(* SetHosts stores its argument for a known cluster: no other branch, no early return *)\nDefinition src_sethosts_stores_argument := %v.\n", setHostsExact)
 	fmt.Fprintf(b, "Definition src_redact_copies_servers := %v.\n", copiesServers && copiesListeners)
 	fmt.Fprintf(b, "Definition src_redact_handles_extends := %v.\n", handlesExt)
 	fmt.Fprintf(b, "Definition src_transfer_copies_servers := %v.\n", transferCopies)
